@@ -9,7 +9,7 @@
  *   accept S|T|B|U|X <e>      uv_accept into pipe / tcp / busy pipe / udp / non-stream client
  *   recv <failAt|-> <ids..>   uv__stream_recv_cmsg with one SCM_RIGHTS cmsg (k-th allocation fails)
  *   close                     uv_close
- * after every op:  r=<ret> acc=<id|-> q=<size>/<off>:<ids> pollin=<b> pc=<n> spare=<b> cl=<ids closed> */
+ * after every op:  r=<ret> acc=<id|-> q=<size>/<off>:<ids> pollin=<b> pc=<n> spare=<b> cl=<ids closed> [got=<id>] */
 #include <sys/syscall.h>
 #include <stdarg.h>
 #define FAKE 1000
@@ -60,6 +60,7 @@ static int role_listen, in_cb, srv_closed;
 
 static void free_cb(uv_handle_t* h) { free(h); }
 
+static int got = -1;   /* descriptor the last uv_accept put into the client */
 static void show(int r) {
   int i;
   printf("r=%d acc=", r);
@@ -73,8 +74,9 @@ static void show(int r) {
   printf(" pollin=%d pc=%d spare=%d cl=", srv_closed ? 0 : !!uv__io_active(&srv->io_watcher, POLLIN),
          uv_pipe_pending_count(srv), loop->emfile_fd != -1);
   for (i = 0; i < nclosed; i++) printf("%s%d", i ? "," : "", closed_log[i]);
+  if (got >= 0) printf(" got=%d", got - FAKE);
   printf("\n");
-  nclosed = 0;
+  nclosed = 0; got = -1;
 }
 
 static int do_line(char* line);
@@ -95,6 +97,7 @@ static int do_accept(char kind) {
     uv_udp_t* c = malloc(sizeof *c);
     uv_udp_init(loop, c);
     r = uv_accept((uv_stream_t*) srv, (uv_stream_t*) c);
+    if (r == 0) got = c->io_watcher.fd;
     c->io_watcher.fd = -1;
     uv_close((uv_handle_t*) c, free_cb);
   } else if (kind == 'X') {
@@ -106,6 +109,7 @@ static int do_accept(char kind) {
     uv_tcp_t* c = malloc(sizeof *c);
     uv_tcp_init(loop, c);
     r = uv_accept((uv_stream_t*) srv, (uv_stream_t*) c);
+    if (r == 0) got = c->io_watcher.fd;
     c->io_watcher.fd = -1;
     uv_close((uv_handle_t*) c, free_cb);
   } else {
@@ -113,6 +117,7 @@ static int do_accept(char kind) {
     uv_pipe_init(loop, c, 0);
     if (kind == 'B') c->io_watcher.fd = 900;     /* already open on something else → UV_EBUSY */
     r = uv_accept((uv_stream_t*) srv, (uv_stream_t*) c);
+    if (r == 0) got = c->io_watcher.fd;
     c->io_watcher.fd = -1;
     uv_close((uv_handle_t*) c, free_cb);
   }
